@@ -1,0 +1,8 @@
+//go:build verif
+
+package functions
+
+// VerifTables returns copies of the precomputed lookup tables (verification harness only).
+func VerifTables() (sqrtRoot []int, log10Root []int) {
+	return append([]int(nil), sqrtRootLookup...), append([]int(nil), log10RootLookup...)
+}
